@@ -1,7 +1,8 @@
 (* Hosts/HostsModel.v -- executable model of crates/dns-types/src/hosts/
    {deserialise.rs, serialise.rs, types.rs} as they are in /repo now (after the
-   fix "hosts parser keeps a name ended by '#' and ignores everything after
-   '#'").  Definitions only.
+   fixes "hosts parser keeps a name ended by '#' and ignores everything after
+   '#'" and 25db594 "a hosts line holding only a malformed address is ignored
+   like any address-only line").  Definitions only.
 
    A &str is a list of Unicode scalar values.  Byte indices ([char_indices],
    slicing) are positions in its UTF-8 encoding; a slice whose ends are not on
@@ -97,15 +98,26 @@ Definition finish_name (name_str : option (list N)) (names : list dname) : res h
     end
   end.
 
+(* the check made before each of the three name-parsing blocks (commit 25db594):
+   a malformed address read earlier on the line is reported as soon as the line
+   goes on to map a name to it -- before the name is sliced or parsed *)
+Definition finish_name_at (bad_address : option (list N)) (name_str : option (list N)) (names : list dname)
+  : res herr (list dname) :=
+  match bad_address with
+  | Some address => Err (CouldNotParseAddress address)
+  | None => finish_name name_str names
+  end.
+
 (* the loop of parse_line over char_indices(): [rest] = characters still to come,
-   the first of them at byte index [i] *)
-Fixpoint parse_loop (line rest : list N) (i : N) (st : pstate) (address : ipaddr) (names : list dname)
-  : res herr (pstate * ipaddr * list dname) :=
+   the first of them at byte index [i]; [bad] = bad_address *)
+Fixpoint parse_loop (line rest : list N) (i : N) (st : pstate) (address : ipaddr)
+  (bad : option (list N)) (names : list dname)
+  : res herr (pstate * ipaddr * option (list N) * list dname) :=
   match rest with
-  | [] => Ok (st, address, names)
+  | [] => Ok (st, address, bad, names)
   | c :: t =>
     match st with
-    | CommentToEndOfLine => Ok (st, address, names)                 (* break *)
+    | CommentToEndOfLine => Ok (st, address, bad, names)            (* break *)
     | _ =>
       if negb (is_ascii c) then Err (ExpectedAscii c)
       else
@@ -113,36 +125,36 @@ Fixpoint parse_loop (line rest : list N) (i : N) (st : pstate) (address : ipaddr
         if c =? 35 then                                             (* '#' *)
           match st with
           | ReadingName start =>
-            let* names' := finish_name (str_slice line start i) names in
-            parse_loop line t i' CommentToEndOfLine address names'
-          | _ => parse_loop line t i' CommentToEndOfLine address names
+            let* names' := finish_name_at bad (str_slice line start i) names in
+            parse_loop line t i' CommentToEndOfLine address bad names'
+          | _ => parse_loop line t i' CommentToEndOfLine address bad names
           end
         else
           match st with
-          | CommentToEndOfLine => Ok (st, address, names)           (* break; not reached *)
+          | CommentToEndOfLine => Ok (st, address, bad, names)      (* break; not reached *)
           | SkipToAddress =>
-            if is_whitespace c then parse_loop line t i' st address names
-            else parse_loop line t i' (ReadingAddress i) address names
+            if is_whitespace c then parse_loop line t i' st address bad names
+            else parse_loop line t i' (ReadingAddress i) address bad names
           | ReadingAddress start =>
-            if c =? 37 then Ok (st, address, names)                 (* '%': break *)
+            if c =? 37 then Ok (st, address, bad, names)            (* '%': break *)
             else if is_whitespace c then
               match str_slice line start i with
               | None => Panic
               | Some addr_str =>
                 match parse_ip addr_str with
-                | Some addr => parse_loop line t i' SkipToName addr names
-                | None => Err (CouldNotParseAddress addr_str)
+                | Some addr => parse_loop line t i' SkipToName addr bad names
+                | None => parse_loop line t i' SkipToName address (Some addr_str) names
                 end
               end
-            else parse_loop line t i' st address names
+            else parse_loop line t i' st address bad names
           | SkipToName =>
-            if is_whitespace c then parse_loop line t i' st address names
-            else parse_loop line t i' (ReadingName i) address names
+            if is_whitespace c then parse_loop line t i' st address bad names
+            else parse_loop line t i' (ReadingName i) address bad names
           | ReadingName start =>
             if is_whitespace c then
-              let* names' := finish_name (str_slice line start i) names in
-              parse_loop line t i' SkipToName address names'
-            else parse_loop line t i' st address names
+              let* names' := finish_name_at bad (str_slice line start i) names in
+              parse_loop line t i' SkipToName address bad names'
+            else parse_loop line t i' st address bad names
           end
     end
   end.
@@ -150,10 +162,10 @@ Fixpoint parse_loop (line rest : list N) (i : N) (st : pstate) (address : ipaddr
 Definition LOCALHOST_V4 : ipaddr := V4 2130706433.                    (* 127.0.0.1 *)
 
 Definition parse_line (line : list N) : res herr (option (ipaddr * list dname)) :=
-  let* r := parse_loop line line 0 SkipToAddress LOCALHOST_V4 [] in
-  let '(st, address, names) := r in
+  let* r := parse_loop line line 0 SkipToAddress LOCALHOST_V4 None [] in
+  let '(st, address, bad, names) := r in
   let* names' := match st with
-                 | ReadingName start => finish_name (str_slice_from line start) names
+                 | ReadingName start => finish_name_at bad (str_slice_from line start) names
                  | _ => Ok names
                  end in
   if is_nil names' then Ok None else Ok (Some (address, names')).
